@@ -284,6 +284,12 @@ func TestVerifC19(t *testing.T) {
 		return
 	}
 
+	if p := os.Getenv("VERIF_PART"); p == "" || p == "E" {
+		c19PartE(t, res)
+		if os.Getenv("VERIF_PART") == "E" {
+			return
+		}
+	}
 	if p := os.Getenv("VERIF_PART"); p == "" || p == "F" {
 		c19PartF(t, res)
 		if os.Getenv("VERIF_PART") == "F" {
